@@ -238,12 +238,16 @@ func zzStub_ndp_Conn_Close(c *ndp.Conn) error {
 
 // state stub with a ghost autoconf value and failing calls
 type zzAutoState struct {
-	value    bool
-	getCalls int
-	sets     []bool
-	lastSetErr int
+	value      bool
+	getCalls   int
+	sets       []bool
 	anyFailure bool
-	monitorTouched bool
+	// phase 0: next Set call disables autoconf for a new connection;
+	// phase 1: next Set call is the restore of the connection being cleaned up
+	phase            int
+	restoreFailed    int // class of the failed restore (0 = none)
+	connsAtRestoreFailure int
+	disablePermDenied bool
 }
 
 func zzStateErr(k int) error {
@@ -269,12 +273,32 @@ func (s *zzAutoState) IPv6Autoconf(iface string) (bool, error) {
 func (s *zzAutoState) IPv6Forwarding(iface string) (bool, error) { return true, nil }
 func (s *zzAutoState) SetIPv6Autoconf(iface string, enable bool) error {
 	s.sets = append(s.sets, enable)
-	if k := zzMayFail("autoconf.set", 4); k != 0 {
+	k := zzMayFail("autoconf.set", 4)
+	if s.phase == 0 {
+		// disabling for a new connection
+		zzAssert(!enable, "disable-call-writes-false")
+		if k == 1 {
+			// permission denied is tolerated: the connection is kept, value unchanged
+			s.anyFailure, s.disablePermDenied = true, true
+			s.phase = 1
+			return zzStateErr(k)
+		}
+		if k != 0 {
+			s.anyFailure = true
+			return zzStateErr(k) // dial fails, nothing to restore
+		}
+		s.value = false
+		s.phase = 1
+		return nil
+	}
+	// restoring
+	s.phase = 0
+	if k != 0 {
 		s.anyFailure = true
-		s.lastSetErr = k
+		s.restoreFailed = k
+		s.connsAtRestoreFailure = len(zzConns)
 		return zzStateErr(k)
 	}
-	s.lastSetErr = 0
 	s.value = enable
 	return nil
 }
@@ -328,5 +352,14 @@ func zzH11() {
 	} else if !st.anyFailure {
 		zzAssert(st.value == initial, "autoconf-restored")
 	}
-	_ = err
+	// a restore failure other than permission-denied / vanished interface is
+	// reported, and nothing further is opened after it
+	if st.restoreFailed == 3 {
+		zzAssert(err != nil, "restore-failure-reported")
+		zzAssert(len(zzConns) == st.connsAtRestoreFailure, "no-new-connection-after-failed-cleanup")
+	}
+	if st.restoreFailed == 1 || st.restoreFailed == 2 {
+		// tolerated: Dial carries on as if cleaned up (its result follows the task)
+		zzCover("tolerated-restore-failure")
+	}
 }
